@@ -8,7 +8,7 @@
    use.  Not proved (tested by the oracle, see evidence tested_only): the face/basis counts and
    closedness (each simplex of order k has k+1 faces of order k-1 and a basis of k+1 points). *)
 From Coq Require Import String ZArith Bool Arith List.
-From SV Require Import Names NamesFacts ListFacts Rep Fresh Complex Atomic RepInv Reach Homology Filtration Gen World Small Sweeps.
+From SV Require Import Names NamesFacts ListFacts Rep Fresh Complex Atomic RepInv Reach Homology Filtration Gen World Small Sweeps Shapes AddEffect.
 Import ListNotations.
 
 (* the invariant holds after any sequence of add / relabel / delete requests on the representation,
@@ -90,3 +90,15 @@ Theorem C01_wellformed_after_mutation_upto4_partial : forall c, In c complexes4 
   chk_delete (build c) = true /\ chk_restrict (build c) = true /\ chk_addb (build c) = true /\ chk_subdiv (build c) = true.
 Proof. intros c H. repeat split; [now apply delete_upto4 | now apply restrict_upto4 | now apply addb_upto4 | now apply subdiv_upto4]. Qed.
 Print Assumptions C01_wellformed_after_mutation_upto4_partial.
+
+(* every simplex ever added, on a complex of any history: the faces asked for are distinct, the
+   new simplex has exactly them and the order |fs|-1, and nothing older changes *)
+Theorem C01_added_simplex_has_exactly_its_faces :
+  forall r fs id attr r' n, sinv r -> addSimplex r fs id attr = (r', Ok n) ->
+  NoDup fs /\ orderOf r' n = Ok (length fs - 1) /\ (forall t, In t (faces r' n) <-> In t fs) /\
+  (forall s, containsSimplex r s = true -> orderOf r' s = orderOf r s /\ faces r' s = faces r s /\ basisOf r' s = basisOf r s).
+Proof.
+  intros r fs id attr r' n Hinv H. destruct (addSimplex_effect r fs id attr r' n Hinv H) as (_ & Hnd & Ho & Hf & Hold & _).
+  split; [exact Hnd|]. split; [exact Ho|]. split; [exact Hf|]. intros s Hs. destruct (Hold s Hs) as (A & _ & B & C). auto.
+Qed.
+Print Assumptions C01_added_simplex_has_exactly_its_faces.
